@@ -141,7 +141,21 @@ func runRelay(r *core.Run) {
 			pdu = recv[site]
 		}
 		var err error
-		if p := r.Call(site+".IDecode", func() { err = pdu.IDecode(f) }); p != nil {
+		if !reuse && (i+int(r.Cfg.Index))%2 == 1 {
+			// the relay asks the dispatcher, as a gateway that does not know what arrives does
+			var dp protocol.PDU
+			if p := r.Call("Decode"+proto.Name, func() { dp, err = dispatcher[proto.Name](f) }); p != nil {
+				r.Fail("C11", "panic", p.Frame, p.Kind, "relay dispatch of a %s image: %s", it.kind, p.Value)
+				continue
+			}
+			if err == nil && (dp == nil || typeSite(dp) != site) {
+				continue // C10's business
+			}
+			if err == nil {
+				pdu = dp
+				r.Probe("relay_via_dispatcher")
+			}
+		} else if p := r.Call(site+".IDecode", func() { err = pdu.IDecode(f) }); p != nil {
 			r.Fail("C11", "panic", p.Frame, p.Kind, "relay IDecode of a %s image: %s", it.kind, p.Value)
 			continue
 		}
